@@ -1,6 +1,6 @@
 """Per-property claims rendered into MANIFEST.json by tools/mkmanifest.py."""
 HOOK_COMMITS = []   # no source hooks needed so far
-FIX_COMMITS = ["fe40c21 fix: cumulus refuses before emitting (C14)", "8acdda3 fix: cisco vlandb keeps VLANs of unchanged lines (C11)", "6c8c7e3 fix: huawei next_hop return (C14)", "42d8898 fix: arista large-community-list ACL (C14)", "9c40074 fix: refuse before emitting (C14)", "750ea7d fix: RouterOS join nested sections (C04)", "e01415d fix: optixtrans match expression (C18)", "12c75c5 fix: make_patch op order (C13)", "8c66073 fix: resolved pointers escaped (C13)", "4756b94 fix: huawei multi_all unchanged lines (C11)", "81e31d8 fix: implicit default block with its defaults (C17)", "5bfc12a fix: order_config word boundary (C08)", "943f14e fix: patch sort key (C08)", "1bcbbe1 fix: rewrite logic sends the new line ... (C01)", "28efb2a fix: file mode builds the patch from the complete diff (C16)", "c62ee59 fix: pool parent loop leaves only when the done queue is drained (C12)"]
+FIX_COMMITS = ["944e092 fix: juniper cmd_paths word boundary (C01)", "fe40c21 fix: cumulus refuses before emitting (C14)", "8acdda3 fix: cisco vlandb keeps VLANs of unchanged lines (C11)", "6c8c7e3 fix: huawei next_hop return (C14)", "42d8898 fix: arista large-community-list ACL (C14)", "9c40074 fix: refuse before emitting (C14)", "750ea7d fix: RouterOS join nested sections (C04)", "e01415d fix: optixtrans match expression (C18)", "12c75c5 fix: make_patch op order (C13)", "8c66073 fix: resolved pointers escaped (C13)", "4756b94 fix: huawei multi_all unchanged lines (C11)", "81e31d8 fix: implicit default block with its defaults (C17)", "5bfc12a fix: order_config word boundary (C08)", "943f14e fix: patch sort key (C08)", "1bcbbe1 fix: rewrite logic sends the new line ... (C01)", "28efb2a fix: file mode builds the patch from the complete diff (C16)", "c62ee59 fix: pool parent loop leaves only when the done queue is drained (C12)"]
 PENDING = {}
 CLAIMS = {
     "C14": {
@@ -212,3 +212,5 @@ _add("C15", "text", "Three-device chains a1-b2-c3 (the middle device served by t
 _add("C15", "note", "Two-device topologies and three-device chains; virtual and device rules are not driven.", replace="Two-device topologies only (3..5 devices, virtual rules and name-template filters are not built yet: stated in evidence assumptions).")
 _add("C14", "text", "The cumulus back-end (CumulusPolicyGenerator.generate_cumulus_rpl, one FRR stream) runs the same programs: error-before-emit per match/then call and every referenced list defined in the stream.")
 _add("C14", "note", "Vendors huawei, arista (all clauses) and cumulus (error-before-emit, references defined; no ACL / nesting there).", replace="Vendors huawei and arista; cumulus (generate_cumulus_rpl) not bound.")
+_add("C01", "text", "The juniper profile (flat `set` / `delete` lines) is judged by Device.ExecAllFlat: the device segments a flat line with the rulebook (block headers are key-determined).")
+_add("C01", "note", "Block-structured vendors and juniper; nokia and routeros not covered.", replace="Block-structured vendors only.")
